@@ -51,7 +51,8 @@ Min2(a, b) == IF a < b THEN a ELSE b
 Max2(a, b) == IF a > b THEN a ELSE b
 Overwrite(data, off, vals) ==  \* off is 0-based
   [i \in 1..Max2(Len(data), off + Len(vals)) |->
-      IF i > off /\ i <= off + Len(vals) THEN vals[i - off] ELSE data[i]]
+      \* (total: after a reported deviation the offset can lie behind the end of the data the model holds)
+      IF i > off /\ i <= off + Len(vals) THEN vals[i - off] ELSE IF i <= Len(data) THEN data[i] ELSE -1]
 
 Admissible(refs, res) ==
   IF refs = {} THEN res.k \in {"ok", "drop"}
